@@ -616,3 +616,102 @@ func execC08Flood(t *testing.T, c C08Flood) (v Verdict) {
 }
 
 func TestC08Flood(t *testing.T) { checkProp(t, "C08", "flood", genC08Flood, execC08Flood) }
+
+// ---- abandoned calls whose request is still on its way ----------------------------------------
+//
+// A caller may give up (cancel) while its unary request has been written but not yet read by the server - it sits in a
+// queue, a proxy, a slow link. When the request finally arrives, its handler must still get the deadline that request
+// carried, whatever calls the same client has made in the meantime.
+
+type C08Abandon struct {
+	TimeoutsMs []int64 `json:"timeouts_ms"` // one per call, issued one after the other; all but the last are abandoned
+	Ser        bool    `json:"ser"`
+	Stats      bool    `json:"stats,omitempty"`
+}
+
+func genC08Abandon(t *rapid.T) C08Abandon {
+	c := C08Abandon{Ser: rapid.Bool().Draw(t, "ser"), Stats: rapid.IntRange(0, 3).Draw(t, "stats") == 0}
+	n := rapid.IntRange(2, 5).Draw(t, "n")
+	for i := 0; i < n; i++ {
+		c.TimeoutsMs = append(c.TimeoutsMs, rapid.SampledFrom([]int64{0, 5000, 60000, 3600000, 86400000}).Draw(t, "to")+int64(rapid.IntRange(0, 1).Draw(t, "odd")))
+	}
+	return c
+}
+
+func execC08Abandon(t *testing.T, c C08Abandon) (v Verdict) {
+	n := len(c.TimeoutsMs)
+	type hobs struct {
+		ran bool
+		has bool
+		dl  time.Time
+	}
+	hs := make([]hobs, n)
+	callerDL := make([]time.Time, n)
+	var mu sync.Mutex
+	res := kit.Bubble(t, func() {
+		svc := kit.NewSvc()
+		svc.Unary("a", func(ctx context.Context, req []byte) ([]byte, error) {
+			i := int(req[0])
+			mu.Lock()
+			hs[i].ran = true
+			hs[i].dl, hs[i].has = ctx.Deadline()
+			mu.Unlock()
+			return req, nil
+		})
+		w := kit.NewWorld(kit.Topo{Kind: "direct", Serialize: c.Ser, Clients: 1, Stats: c.Stats}, svc, nil, nil)
+		l := w.Links[0]
+		l.A.Delay(func(*kit.Rpc) bool { return true }) // requests are written at once and delivered later
+		var wg sync.WaitGroup
+		for i := 0; i < n; i++ {
+			i := i
+			ctx, cancel := context.WithCancel(context.Background())
+			if c.TimeoutsMs[i] > 1 {
+				var c2 context.CancelFunc
+				ctx, c2 = context.WithTimeout(ctx, time.Duration(c.TimeoutsMs[i])*time.Millisecond)
+				defer c2()
+				callerDL[i], _ = ctx.Deadline()
+			}
+			wg.Add(1)
+			go func() {
+				defer wg.Done()
+				_, _ = kit.Invoke(ctx, w.Conn(0), "a", []byte{byte(i)})
+			}()
+			kit.Settle() // the request has been written and is in flight
+			if i < n-1 {
+				cancel() // the caller gives up; nothing tells the server
+				kit.Settle()
+			} else {
+				defer cancel()
+			}
+		}
+		for l.ReleaseNext(kit.AtoB) {
+			kit.Settle()
+		}
+		l.A.Delay(nil)
+		kit.Settle()
+		wg.Wait()
+		w.Shutdown()
+		kit.Settle()
+	})
+	if res.Panic != nil {
+		v.failf("panic: %v", res.Panic)
+	}
+	for i := 0; i < n; i++ {
+		if !hs[i].ran {
+			v.failf("call %d: its request was delivered but no handler ran", i)
+			continue
+		}
+		want := c.TimeoutsMs[i] > 1
+		if hs[i].has != want {
+			v.failf("call %d (timeout %dms, abandoned=%v): the request carried deadline=%v, its handler has deadline=%v", i, c.TimeoutsMs[i], i < n-1, want, hs[i].has)
+			continue
+		}
+		if want && (hs[i].dl.After(callerDL[i]) || hs[i].dl.Before(callerDL[i].Add(-time.Millisecond))) {
+			v.failf("call %d (timeout %dms, abandoned=%v): handler deadline differs from the one its request carried by %v (a later call's deadline?)", i, c.TimeoutsMs[i], i < n-1, hs[i].dl.Sub(callerDL[i]))
+		}
+	}
+	v.Info = kit.CaseInfo{Labels: []string{"e2e.abandon", fmt.Sprintf("abandon.byref=%v", !c.Ser)}, NonTrivial: true, Key: fmt.Sprintf("%+v", c), Sample: c}
+	return
+}
+
+func TestC08Abandon(t *testing.T) { checkProp(t, "C08", "abandon", genC08Abandon, execC08Abandon) }
